@@ -130,6 +130,7 @@ type opResult struct {
 	out  []byte
 	err  error
 	rows []string // walk
+	late []string // walk: the same facts read from the retained *WalkerNode values after the walk has returned
 	snap string   // mkdir
 }
 
@@ -171,15 +172,24 @@ func runOp(op string, doc []byte, massive bool, ctx context.Context, f Fmt4, ext
 	case "walk":
 		var mu sync.Mutex
 		var rows []string
+		var kept []*gtree.WalkerNode // a callback may keep what it is handed: each value stays the node it was
+		fact := func(wn *gtree.WalkerNode) string {
+			return wn.Path() + "\x00" + wn.Row()
+		}
 		res.err = gtree.WalkFromMarkdown(docReader(doc), func(wn *gtree.WalkerNode) error {
 			mu.Lock()
-			rows = append(rows, wn.Path()+"\x00"+wn.Row())
+			rows = append(rows, fact(wn))
+			kept = append(kept, wn)
 			mu.Unlock()
 			return nil
 		}, append(opts, fmtOpts(f)...)...)
 		mu.Lock()
 		res.rows = append([]string{}, rows...)
+		keptNow := append([]*gtree.WalkerNode{}, kept...)
 		mu.Unlock()
+		for _, wn := range keptNow {
+			res.late = append(res.late, fact(wn)+"\x00"+wn.Name()+"\x00"+fmtInt(int(wn.Level()))+"\x00"+b01(wn.HasChild()))
+		}
 	case "mkdir":
 		jail := newJail()
 		defer os.RemoveAll(jail)
@@ -325,6 +335,30 @@ func runMassive(m *Model, c massiveCase) []Diff {
 		return []Diff{{What: "massive mode did not return within 20 s where simple mode returned " + classify(simple.err), Real: string(buf[:n]), Model: "simple: " + classify(simple.err)}}
 	}
 	var d []Diff
+	if c.Op == "walk" {
+		// the *WalkerNode values a callback retained describe, after the walk has returned, the nodes they described
+		// inside the callback – in both modes
+		for _, x := range []struct {
+			mode string
+			r    opResult
+		}{{"simple", simple}, {"massive", massive}} {
+			for i, l := range x.r.late {
+				if i < len(x.r.rows) && !strings.HasPrefix(l, x.r.rows[i]+"\x00") {
+					d = append(d, Diff{What: "walk (" + x.mode + " mode): a *WalkerNode the callback kept describes another node after the walk has returned", Real: hxs(l), Model: hxs(x.r.rows[i])})
+					break
+				}
+			}
+		}
+		if simple.err == nil && massive.err == nil {
+			a := append([]string{}, simple.late...)
+			b := append([]string{}, massive.late...)
+			sort.Strings(a)
+			sort.Strings(b)
+			if strings.Join(a, "\x01") != strings.Join(b, "\x01") {
+				d = append(d, Diff{What: "walk: the nodes retained by the callback, read after the walk returned, are another multiset in massive mode", Real: hxs(strings.Join(massive.late, "\n")), Model: hxs(strings.Join(simple.late, "\n"))})
+			}
+		}
+	}
 	if (simple.err == nil) != (massive.err == nil) {
 		if massive.err == nil && wrongCharRow(doc, simple.err) {
 			noteKnown("c10.massive-accepts-wrong-indent-char")
@@ -1242,14 +1276,22 @@ func runRootReuseMassive(m *Model, c rootReuseCase) []Diff {
 	walk := func(o []gtree.Option) string {
 		var mu sync.Mutex
 		var vs []string
+		var kept []*gtree.WalkerNode
 		err := gtree.WalkFromRoot(root, func(wn *gtree.WalkerNode) error {
 			mu.Lock()
 			vs = append(vs, showVisit(wn))
+			kept = append(kept, wn)
 			mu.Unlock()
 			return nil
 		}, o...)
 		mu.Lock()
 		defer mu.Unlock()
+		// what the callback kept is, after the walk, what it was handed
+		for i, wn := range kept {
+			if late := showVisit(wn); late != vs[i] {
+				return "v=" + showVisits(vs) + " e=" + classify(err) + " but the " + fmtInt(i) + "-th *WalkerNode the callback kept reads " + late + " after the walk returned"
+			}
+		}
 		return "v=" + showVisits(vs) + " e=" + classify(err)
 	}
 	dry := func(o []gtree.Option) string {
